@@ -155,9 +155,11 @@ def tlc_judge(module, cfg, env, name, timeout=900, xmx="4g"):
     rc, out = run(cmd, cwd=SPEC, env=e, timeout=timeout + 60)
     shutil.rmtree(meta, ignore_errors=True)
     res = {"rc": rc, "out": out, "wall": time.time() - t0}
-    res["dev"] = [int(m.group(1)) for m in re.finditer(r'^<<"DEV", (\d+)', out, re.M)]
-    res["devinfo"] = [m.group(0) for m in re.finditer(r'^<<"DEV", .*$', out, re.M)]
-    res["kf"] = [(m.group(1), int(m.group(2))) for m in re.finditer(r'^<<"KF", "([^"]+)", (\d+)>>', out, re.M)]
+    # TLC pretty-prints long tuples over several lines: match across whitespace
+    res["dev"] = [int(m.group(1)) for m in re.finditer(r'<<\s*"DEV",\s*(\d+)\s*>>', out)]
+    res["why"] = {int(m.group(1)): " ".join(m.group(2).split())[:500]
+                  for m in re.finditer(r'<<\s*"WHY",\s*(\d+),(.*?)(?=\n<<|\nModel checking|\nError|\Z)', out, re.S)}
+    res["kf"] = [(m.group(1), int(m.group(2))) for m in re.finditer(r'<<\s*"KF",\s*"([^"]+)",\s*(\d+)\s*>>', out)]
     m = re.search(r"The depth of the complete state graph search is (\d+)", out)
     res["depth"] = int(m.group(1)) if m else None
     m = re.search(r'^<<"REJECT", (\d+)', out, re.M)
